@@ -66,13 +66,35 @@ def _all_enc_at(ex, st, seq, i):
     return VBool(Implies(And(al, Le(I(0), i), Lt(i, seq_len(t))), ok))
 
 
-R.contract("AvpGrouped.value", params={"self": "AvpGrouped"}, returns="List[Avp]",
-           ensures=[("cached", "hasattr(self, '_avps') and result == self._avps")],
+@R.specfn("sub_off")
+def _sub_off(ex, st, b, n):
+    """offset of the n-th member AVP inside a grouped payload: sub_off(b, 0) = 0, sub_off(b, n+1) = d_end(b, sub_off(b, n))"""
+    from pyvc.models import _ufun
+    from pyvc.smt import INT
+    from pyvc.values import VInt
+    return VInt(_ufun(ex, "sub_off", ["(Seq Int)", INT], INT, ex.unwrap(b).t, ex.num(n)))
+
+
+R.kind_hints[("AvpGrouped.value", "[]")] = "List[Avp]"
+R.contract("AvpGrouped.value", params={"self": "AvpGrouped"}, returns="List[Avp]", ghost={"j": "int"},
+           ensures=[("cached", "hasattr(self, '_avps') and result == self._avps"),
+                    ("first-read-decodes-the-members-identical-to-the-payload",
+                     "implies(not old(hasattr(self, '_avps')) and 0 <= j < len(result), "
+                     "avp_at(result[j], self.payload, sub_off(self.payload, j)))"),
+                    ("first-read-consumes-the-whole-payload",
+                     "implies(not old(hasattr(self, '_avps')), sub_off(self.payload, len(result)) == len(self.payload))")],
            raises=[Raise("AvpDecodeError", "not hasattr(self, '_avps')", "only_if")],
-           modifies=["self._avps"], props=["C01", "C04"])
+           ensures_exc={"AvpDecodeError": [("a-failed-decode-caches-nothing", "not hasattr(self, '_avps')")]},
+           modifies=["self._avps"], props=["C01", "C04", "C02"])
 R.loop("AvpGrouped.value", 0,
        invariants=[("pos-in-buffer", "0 <= upos(unpacker) and upos(unpacker) <= len(ubuf(unpacker))"),
-                   ("buffer-fixed", "ubuf(unpacker) == self.payload")],
+                   ("buffer-fixed", "ubuf(unpacker) == self.payload"),
+                   ("nothing-cached-yet", "not hasattr(self, '_avps')"),
+                   ("position-is-the-next-member-offset", "upos(unpacker) == sub_off(self.payload, len(avps))"),
+                   ("decoded-so-far-identical-to-the-payload",
+                    "implies(0 <= j < len(avps), avp_at(avps[j], self.payload, sub_off(self.payload, j)))")],
+       hints=["sub_off(self.payload, 0) == 0",
+              "sub_off(self.payload, len(avps) + 1) == d_end(self.payload, sub_off(self.payload, len(avps)))"],
        decreases="len(ubuf(unpacker)) - upos(unpacker)",
        modifies=["unpacker._Unpacker__pos", "list:avps"])
 
